@@ -83,7 +83,7 @@ def run_nodes(st, drv, sid, ctxflags, nodes, init_dump):
 
 def reduced_alphabet(sch):
     """declared names, one value, one title, the punctuation that sections and assignments need"""
-    return [n.decode('latin-1') for n in sch.all_names()] + ['7', 't1', '=', '+=', '{', '}']
+    return [n.decode('latin-1') for n in sch.all_names()] + ['7', 't1', 'T1', '=', '+=', '{', '}']
 
 
 def shard_e1(shard):
@@ -256,16 +256,17 @@ def main():
         if not agg['complete']:
             ck.cov['exhaustive'] = False
     # E1 with a reduced alphabet, deeper: repeated titles, re-opened sections, a section named like the top-level context
-    deep = ['F05', 'F06', 'F07', 'F08', 'F16', 'F18', 'F19']
+    deep = ['F05', 'F06', 'F07', 'F08', 'F16', 'F18', 'F19', 'F20', 'F21']
     for N in ([8, 10] if quick else [10, 11, 12]):
         shards = []
         for sid in deep:
             sch = SCHEMAS[sid]
             alpha = reduced_alphabet(sch)
-            inner, frontier = trace.viable_prefixes(sch, 0, alpha, 3)
-            shards.append(('noder', sid, 0, N, inner, ck.deadline))
-            for ch in chunks(frontier, 2):
-                shards.append(('dfsr', sid, 0, N, ch, ck.deadline))
+            for cf in (0, CFGF['NOCASE']):
+                inner, frontier = trace.viable_prefixes(sch, cf, alpha, 3)
+                shards.append(('noder', sid, cf, N, inner, ck.deadline))
+                for ch in chunks(frontier, 2):
+                    shards.append(('dfsr', sid, cf, N, ch, ck.deadline))
         engine.phase(ck, 'E1 reduced alphabet N=%d' % N, shard_e1, shards, schemas=len(deep))
     # E2: full product, no pruning
     L = 4 if quick else 5
